@@ -40,6 +40,10 @@ func cwRace(in json.RawMessage, res *vh.Result) error {
 		cwUnitWitness(ri.Witness, res)
 	}
 	cwCfgChangeProbe(res)
+	cwHeadOrphanProbe(res)
+	if err := cwBatchingOffProbe(res); err != nil {
+		res.Extra["batching_off_probe"] = map[string]any{"error": err.Error()}
+	}
 	if ri.Rounds == 0 {
 		ri.Rounds = 1
 	}
@@ -50,6 +54,11 @@ func cwRace(in json.RawMessage, res *vh.Result) error {
 					res.Drift("C13", fmt.Sprintf("client race %s racy=%v: %v", variant, racy, err), nil)
 					res.Done(1, 0)
 				}
+			}
+			mode := map[string]string{"plain": "normal", "pos": "latest"}[variant]
+			if err := cwClientLeaveOrder(mode, round, res); err != nil {
+				res.Drift("C13", fmt.Sprintf("client join/leave order %s: %v", mode, err), nil)
+				res.Done(1, 0)
 			}
 			if err := cwClientResub(variant, round, res); err != nil {
 				res.Drift("C13", fmt.Sprintf("client resubscribe window %s: %v", variant, err), nil)
@@ -424,6 +433,241 @@ func cwClientResub(variant string, round int, res *vh.Result) error {
 	}
 	if inWindow {
 		res.Distinct("resub:" + variant)
+	}
+	res.Sample(replay)
+	res.Done(1, 1)
+	return nil
+}
+
+// cwHeadOrphanProbe (evidence, spec/ChanWriter orphan_witness.cfg): perChannelWriter.Add is getWriter followed by
+// w.Add. A broadcast that fetched the writer just before unsubscribe's first delWriter adds to a writer that is already
+// closed and deleted from the map; the second delWriter (after removeSubscription) looks in the map and cannot reach it;
+// its MaxDelay timer flushes after the unsubscribe. Stepped through the real perChannelWriter with the two halves of
+// Add taken separately (there is no natural gate between the two statements at client level).
+func cwHeadOrphanProbe(res *vh.Result) {
+	const d = 20 * time.Millisecond
+	rec := newCwRec()
+	pcw := centrifuge.VerifMNewPCW(rec.flush)
+	defer pcw.Close(false)
+	bc := centrifuge.ChannelBatchConfig{MaxDelay: d}
+	pcw.Add(cwQueueItem(cwItem{ID: 1, K: "pub"}), cwChannel, bc) // the channel has a writer
+	rec.waitNew(d + 2*time.Second)
+	rec.take()
+	w := pcw.GetWriter(cwChannel)                        // broadcast: getWriter
+	pcw.DelWriter(cwChannel, false)                      // unsubscribe, site 1 (under c.mu)
+	w.Add(cwQueueItem(cwItem{ID: 2, K: "pub"}), bc)      // broadcast: w.Add on the closed, deleted writer
+	pcw.DelWriter(cwChannel, false)                      // unsubscribe, site 2 (after removeSubscription)
+	st := pcw.State(cwChannel)
+	got := rec.waitNew(d + 2*time.Second)
+	res.Extra["head_orphan_probe"] = map[string]any{
+		"schedule":                     "Add(#1); timer flush; w := getWriter(ch); delWriter(ch,false); w.Add(#2); delWriter(ch,false); wait MaxDelay",
+		"writer_in_map_after_removal":  st.Exists,
+		"flushed_after_both_delWriter": batchIDs(rec.take()),
+		"push_delivered_after_removal": got,
+	}
+}
+
+// cwBatchingOffProbe (evidence, outside the property's quantifier; spec/ChanWriter cfgswitch_direct_witness.cfg):
+// GetChannelBatchConfig is evaluated per broadcast. Publication 1 is buffered (MaxDelay 150 ms); the application then
+// answers "no batching" for the channel; publication 2 is written directly and overtakes publication 1.
+func cwBatchingOffProbe(res *vh.Result) error {
+	const d = 150 * time.Millisecond
+	var off atomic.Bool
+	env, err := cl.NewEnv(centrifuge.Config{
+		LogLevel: centrifuge.LogLevelNone,
+		GetChannelBatchConfig: func(string) centrifuge.ChannelBatchConfig {
+			if off.Load() {
+				return centrifuge.ChannelBatchConfig{}
+			}
+			return centrifuge.ChannelBatchConfig{MaxDelay: d}
+		},
+	})
+	if err != nil {
+		return err
+	}
+	if err := env.Run(); err != nil {
+		return err
+	}
+	defer env.Close()
+	conn, err := env.NewConn("u", centrifuge.ProtocolTypeJSON)
+	if err != nil {
+		return err
+	}
+	defer func() { conn.Client.Disconnect(); conn.Cancel() }()
+	if conn.Connect() == nil {
+		return fmt.Errorf("connect failed")
+	}
+	ch := fmt.Sprintf("cfgoff_%d", vh.Seed())
+	id := conn.NextID()
+	conn.Do(&protocol.Command{Id: id, Subscribe: &protocol.SubscribeRequest{Channel: ch}})
+	if conn.WaitReply(id, 3*time.Second) == nil {
+		return fmt.Errorf("subscribe failed")
+	}
+	if _, err := env.Node.Publish(ch, []byte(`{"n":1}`)); err != nil {
+		return err
+	}
+	off.Store(true)
+	if _, err := env.Node.Publish(ch, []byte(`{"n":2}`)); err != nil {
+		return err
+	}
+	time.Sleep(d + 100*time.Millisecond)
+	conn.Barrier(2 * time.Second)
+	var order []string
+	for _, r := range conn.Frames() {
+		if r.Push != nil && r.Push.Channel == ch && r.Push.Pub != nil {
+			order = append(order, string(r.Push.Pub.Data))
+		}
+	}
+	res.Extra["batching_off_probe"] = map[string]any{
+		"schedule":              "publish 1 (config: MaxDelay 150 ms, buffered); GetChannelBatchConfig now returns the zero config; publish 2 (written directly); wait",
+		"order_on_the_wire":     order,
+		"reordered":             len(order) == 2 && strings.Contains(order[0], `"n":2`),
+		"inside_property_scope": false,
+	}
+	return nil
+}
+
+// cwClientLeaveOrder: per-channel order of join / leave / publication pushes under batching on a real node
+// (spec/ChanWriter kinds_witness.cfg: a push kind that bypasses the channel writer overtakes what is buffered).
+// Observer O subscribed to a channel with EmitJoinLeave + PushJoinLeave and batching MaxDelay 300 ms; a second
+// connection S subscribes (join), a publication, S unsubscribes (leave), a second publication - all inside one batch
+// window, each operation returning before the next starts, so the node produced the pushes in exactly this order.
+// Judged on O's wire: normal mode: the channel's pushes arrive in production order; latest-publication mode: join
+// before leave, and both in front of the coalesced publication of their flush.
+func cwClientLeaveOrder(mode string, round int, res *vh.Result) error {
+	const d = 300 * time.Millisecond
+	ch := fmt.Sprintf("jl_%s_%d_%d", mode, vh.Seed(), round)
+	env, err := cl.NewEnv(centrifuge.Config{
+		LogLevel: centrifuge.LogLevelNone,
+		GetChannelBatchConfig: func(string) centrifuge.ChannelBatchConfig {
+			return centrifuge.ChannelBatchConfig{MaxDelay: d, FlushLatestPublication: mode == "latest"}
+		},
+	})
+	if err != nil {
+		return err
+	}
+	env.OnSubscribe = func(_ *centrifuge.Client, _ centrifuge.SubscribeEvent, cb centrifuge.SubscribeCallback) {
+		cb(centrifuge.SubscribeReply{Options: centrifuge.SubscribeOptions{EmitJoinLeave: true, PushJoinLeave: true}}, nil)
+	}
+	if err := env.Run(); err != nil {
+		return err
+	}
+	defer env.Close()
+	mk := func(user string) (*cl.Conn, error) {
+		c, err := env.NewConn(user, centrifuge.ProtocolTypeJSON)
+		if err != nil {
+			return nil, err
+		}
+		if c.Connect() == nil {
+			return nil, fmt.Errorf("connect failed")
+		}
+		return c, nil
+	}
+	obs, err := mk("observer")
+	if err != nil {
+		return err
+	}
+	defer func() { obs.Client.Disconnect(); obs.Cancel() }()
+	sub, err := mk("shortlived")
+	if err != nil {
+		return err
+	}
+	defer func() { sub.Client.Disconnect(); sub.Cancel() }()
+	do := func(c *cl.Conn, cmd *protocol.Command) error {
+		cmd.Id = c.NextID()
+		c.Do(cmd)
+		if r := c.WaitReply(cmd.Id, 3*time.Second); r == nil || r.Error != nil {
+			return fmt.Errorf("command failed: %v", r)
+		}
+		return nil
+	}
+	if err := do(obs, &protocol.Command{Subscribe: &protocol.SubscribeRequest{Channel: ch}}); err != nil {
+		return err
+	}
+	// the observer's own join push leaves the batch first
+	obs.T.WaitFor(d+2*time.Second, func(rs []*protocol.Reply, _ bool) bool {
+		for _, r := range rs {
+			if r.Push != nil && r.Push.Channel == ch && r.Push.Join != nil {
+				return true
+			}
+		}
+		return false
+	})
+	time.Sleep(20 * time.Millisecond)
+	base := len(obs.Frames())
+	sid := sub.Client.ID()
+	start := time.Now()
+	var produced []string
+	if err := do(sub, &protocol.Command{Subscribe: &protocol.SubscribeRequest{Channel: ch}}); err != nil {
+		return err
+	}
+	produced = append(produced, "join")
+	if _, err := env.Node.Publish(ch, []byte(`{"n":1}`)); err != nil {
+		return err
+	}
+	produced = append(produced, "pub1")
+	if err := do(sub, &protocol.Command{Unsubscribe: &protocol.UnsubscribeRequest{Channel: ch}}); err != nil {
+		return err
+	}
+	produced = append(produced, "leave")
+	if _, err := env.Node.Publish(ch, []byte(`{"n":2}`)); err != nil {
+		return err
+	}
+	produced = append(produced, "pub2")
+	inWindow := time.Since(start) < d-50*time.Millisecond
+	time.Sleep(d + 150*time.Millisecond)
+	obs.Barrier(2 * time.Second)
+	var got []string
+	for _, r := range obs.Frames()[base:] {
+		p := r.Push
+		if p == nil || p.Channel != ch {
+			continue
+		}
+		switch {
+		case p.Join != nil && p.Join.Info.GetClient() == sid:
+			got = append(got, "join")
+		case p.Leave != nil && p.Leave.Info.GetClient() == sid:
+			got = append(got, "leave")
+		case p.Pub != nil && strings.Contains(string(p.Pub.Data), `"n":1`):
+			got = append(got, "pub1")
+		case p.Pub != nil && strings.Contains(string(p.Pub.Data), `"n":2`):
+			got = append(got, "pub2")
+		}
+	}
+	idx := func(x string) int {
+		for i, g := range got {
+			if g == x {
+				return i
+			}
+		}
+		return -1
+	}
+	bad := ""
+	switch {
+	case idx("join") < 0 || idx("leave") < 0 || idx("pub2") < 0:
+		bad = "a push of the channel is missing"
+	case idx("leave") < idx("join"):
+		bad = "the leave push of the short-lived subscriber arrives before its join push"
+	case mode == "normal" && fmt.Sprint(got) != fmt.Sprint(produced):
+		bad = "the channel's pushes are reordered"
+	case mode == "latest" && inWindow && (idx("leave") > idx("pub2") || idx("join") > idx("pub2")):
+		bad = "a join / leave push of the flush comes after its coalesced publication"
+	case mode == "latest" && idx("pub1") >= 0 && idx("pub1") > idx("pub2"):
+		bad = "publications are reordered"
+	}
+	replay := map[string]any{"mode": mode, "max_delay_ms": d.Milliseconds(), "produced": produced, "observer_received": got,
+		"observer_frames": cl.DescribeAll(obs.Frames()[base:])}
+	if bad != "" {
+		sig := "order:leave-overtakes-buffered:" + mode
+		if idx("join") < 0 || idx("leave") < 0 || idx("pub2") < 0 {
+			sig = "order:push-missing:" + mode
+		}
+		res.Violate("C13", sig, fmt.Sprintf("%s: the node produced %v for the channel (each operation returned before the next started, batching MaxDelay %v, %s mode), the observer's connection received %v", bad, produced, d, mode, got), replay)
+		res.Done(1, 0)
+		return nil
+	}
+	if inWindow {
+		res.Distinct("joinleave:" + mode)
 	}
 	res.Sample(replay)
 	res.Done(1, 1)
